@@ -442,6 +442,8 @@ OptEval(p, rest, stdinKind) ==
                     \/ \E i \in 1 .. Len(PairsOf(p, "argjson")) : ~JsonTextKnown(PairsOf(p, "argjson")[i][2])
                     \/ (hasFile /\ Readable(exprFile) /\ ProgFileTag(exprFile) = "unknown")
                     \/ \E n \in {"show_help", "show_version", "repl", "color_output", "argdecode", "unicode_output"} : HasF(p, n)
+                    \* one name bound twice: jq keeps the first, fq the last of arg < argjson < raw-file; the property does not say
+                    \/ \E i, j \in 1 .. Len(BindSeq(p)) : i # j /\ BindSeq(p)[i].n = BindSeq(p)[j].n
                     \/ (group = "json" /\ \E i \in 1 .. Len(inputs) : inputs[i].kind \in {"U", "E"})    \* -d FORMAT returns a partial tree
         mode     == IF HasF(p, "string_input") THEN (IF HasF(p, "slurp") THEN "rawslurp" ELSE "raw")
                     ELSE IF HasF(p, "slurp") THEN "slurp" ELSE "each"
